@@ -29,7 +29,9 @@ m = {
               "baseline_off_cmd": "cd /repo && /venv/bin/python -m pytest -ra -q -p no:cacheprovider --timeout=900 --continue-on-collection-errors",
               "source_commits": [], "add_only": True},
     "engines": [{"name": "coq-model+correspondence", "path": "/verif/harness/check.py", "serves_properties": sorted(D.CLAIMED),
-                 "kind_free_text": "Coq 8.16 model + theorems (coq/), facts regenerated from the source by ast translators (harness/translate), vm_compute correspondence against the implementation (harness/props)"}],
+                 "kind_free_text": "Coq 8.16 model + theorems (coq/), facts regenerated from the source by ast translators (harness/translate), vm_compute correspondence against the implementation (harness/props)"},
+                {"name": "argparse-token-model (ARGP)", "path": "/verif/harness/props/ARGP.py", "serves_properties": ["C01", "C02", "C04", "C12", "C15"],
+                 "kind_free_text": "auxiliary engine, run as ./check ARGP: token-level Coq model of CPython 3.12 argparse optionals, interface lemmas I1-I6, composition theorem and bridge to Leaf.take_values, differential correspondence against the real argparse (the modelled assumption of the per-field properties, checked)"}],
     "checks": checks,
     "notes": D.NOTES,
     "not_applicable": na,
